@@ -89,7 +89,12 @@ C07Extra == <<L("p", "T3", ""), L("q", "T4", "")>>
 C07g == { Scn("C07g", F(<<L("a", "T2", "")>>, <<>>), ins, cs) :
             ins \in UNION {PermSeqs(S) : S \in {{L("a", "T1", ""), L("p", "T3", ""), L("q", "T4", "")}, {L("a", "T1", ""), L("b", "T1", ""), L("p", "T3", ""), L("q", "T4", "")}}},
             cs \in UNION {PermSeqs({F(<<L("a", "T1", "")>> \o SubSeq(C07Extra, 1, n), <<L("", "T2", "")>>), F(<<L("", "T1", "")>>, <<L("", "T2", "")>>)}) : n \in 1..2} }
-C07Family == C07a \cup C07b \cup C07c \cup C07d \cup C07e \cup C07f \cup C07g
+\* a two-input converter that is ENTERED through its named input (f:T3, supplied directly) - its type-only input is then
+\* looked for while the converter itself is being reached, where no name is at hand (known finding K1, see Contract!C07h)
+C07h == { Scn("C07h", F(<<L("a", "T2", "")>>, <<>>), ins, <<F(<<L("f", "T3", ""), L("", "T1", "")>>, <<o>>)>>) :
+            ins \in UNION {PermSeqs(S) : S \in {{L("a", "T1", ""), L("b", "T1", ""), L("f", "T3", "")}}},
+            o \in C07ConvOut }
+C07Family == C07a \cup C07b \cup C07c \cup C07d \cup C07e \cup C07f \cup C07g \cup C07h
 
 -----------------------------------------------------------------------------
 \* single-input converter digraphs over three types: every subset of the six type-only converters
@@ -224,5 +229,6 @@ EmitScn == (outcome.kind = "build" /\ scn.sid >= 1000000) => PrintT(<<"SCN", ToJ
 
 \* C07 as a design-level invariant (the contract formula lives in Contract.tla)
 M_C07 == CI!C07
+M_C07h == CI!C07h
 M_C16 == CI!C16
 =============================================================================
